@@ -89,7 +89,7 @@ package limit
 //@   ensures[C08] ordered: result >= apply(owner.thresholdFunc, "limit.VegasLimit.thresholdFunc", estimatedLimit) && result <= apply(owner.betaFunc, "limit.VegasLimit.betaFunc", estimatedLimit)
 //@ func limit.VegasLimit.betaFunc params estimatedLimit
 //@   pure
-//@   ensures[C07,C08] positive: result >= 1 && result <= 1<<31
+//@   ensures[C07,C08] positive: result >= 1 && result <= 1<<50
 //@ func limit.VegasLimit.thresholdFunc params estimatedLimit
 //@   pure
 //@   ensures[C07,C08] positive: result >= 1
@@ -101,17 +101,27 @@ package limit
 //@   pure
 //@   ensures[C04,C06,C08] shrinks: isFinite(estimatedLimit) ==> isFinite(result) && result <= estimatedLimit - 1.0
 
+// The default closures capture defaultLogFunc / defaultLogFloatFunc. What they are bound to is
+// established by the constructor (closure_bindings below): functions.Log10RootFunction(0) and
+// functions.Log10RootFloatFunction(0), whose own contracts give result >= baseline + 1.
+//@ func captured:defaultLogFunc params n
+//@   pure
+//@   ensures lower: n >= 0 ==> result >= 1 && result <= 1 + max(1, n)
+//@ func captured:defaultLogFloatFunc params x
+//@   pure
+//@   ensures lower: isFinite(x) && 0.0 <= x && x <= 4611686018427387904.0 ==> isFinite(result) && result >= 1.0 && result <= max(1.0, x)
+
 //@ func NewVegasLimitWithRegistry$1
 //@   implements limit.VegasLimit.alphaFunc
-//@   requires nonneg: limit >= 0
+//@   requires nonneg: 0 <= limit && limit <= 1<<40
 //@   ensures[C08] value: result >= 3
 //@ func NewVegasLimitWithRegistry$2
 //@   implements limit.VegasLimit.betaFunc
-//@   requires nonneg: limit >= 0
+//@   requires nonneg: 0 <= limit && limit <= 1<<40
 //@   ensures[C08] value: result >= 6
 //@ func NewVegasLimitWithRegistry$3
 //@   implements limit.VegasLimit.thresholdFunc
-//@   requires nonneg: limit >= 0
+//@   requires nonneg: 0 <= limit && limit <= 1<<40
 //@ func NewVegasLimitWithRegistry$4
 //@   implements limit.VegasLimit.increaseFunc
 //@   requires fin: isFinite(limit) && 0.0 <= limit && limit <= 4611686018427387904.0
@@ -478,6 +488,9 @@ package limit
 
 // ---------------------------------------------------------------------------------------------
 // Constructors establish the invariants under the valid-configuration predicate.
+//@ define isLog10Root(f func(int)int) bool = isfunc(f, "limit/functions.Log10RootFunction$1") && *captured(f, "limit/functions.Log10RootFunction$1", 0) == 0
+//@ define isLog10RootFloat(f func(float64)float64) bool = isfunc(f, "limit/functions.Log10RootFloatFunction$1") && *captured(f, "limit/functions.Log10RootFloatFunction$1", 0) == 0.0
+
 //@ func NewVegasLimitWithRegistry
 //@   requires default_measurement: rttNoLoad == nil
 //@   requires cfg: initialLimit <= 1000000000 && maxConcurrency <= 1000000000 && probeMultiplier <= 1000000000 && isFinite(smoothing)
@@ -485,6 +498,7 @@ package limit
 //@   establishes[C04,C15] result
 //@   ensures[C04] initial: result != nil && result.estimatedLimit == float64(ite(initialLimit < 1, 20, initialLimit)) && result.maxLimit == ite(maxConcurrency < 0, 1000, maxConcurrency) && result.probeCount == 0 && len(result.listeners) == 0
 //@   ensures[C06,C07,C08] default_functions: (alphaFunc == nil ==> isfunc(result.alphaFunc, "limit.NewVegasLimitWithRegistry$1")) && (betaFunc == nil ==> isfunc(result.betaFunc, "limit.NewVegasLimitWithRegistry$2")) && (thresholdFunc == nil ==> isfunc(result.thresholdFunc, "limit.NewVegasLimitWithRegistry$3")) && (increaseFunc == nil ==> isfunc(result.increaseFunc, "limit.NewVegasLimitWithRegistry$4")) && (decreaseFunc == nil ==> isfunc(result.decreaseFunc, "limit.NewVegasLimitWithRegistry$5"))
+//@   ensures[C06,C07,C08] closure_bindings: (alphaFunc == nil ==> isLog10Root(*captured(result.alphaFunc, "limit.NewVegasLimitWithRegistry$1", 0))) && (betaFunc == nil ==> isLog10Root(*captured(result.betaFunc, "limit.NewVegasLimitWithRegistry$2", 0))) && (thresholdFunc == nil ==> isLog10Root(*captured(result.thresholdFunc, "limit.NewVegasLimitWithRegistry$3", 0))) && (increaseFunc == nil ==> isLog10RootFloat(*captured(result.increaseFunc, "limit.NewVegasLimitWithRegistry$4", 0))) && (decreaseFunc == nil ==> isLog10RootFloat(*captured(result.decreaseFunc, "limit.NewVegasLimitWithRegistry$5", 0)))
 //@   ensures[C06,C07,C08] supplied_functions: (alphaFunc != nil ==> result.alphaFunc == alphaFunc) && (betaFunc != nil ==> result.betaFunc == betaFunc) && (thresholdFunc != nil ==> result.thresholdFunc == thresholdFunc) && (increaseFunc != nil ==> result.increaseFunc == increaseFunc) && (decreaseFunc != nil ==> result.decreaseFunc == decreaseFunc)
 //@   safety[C04]
 
